@@ -529,9 +529,72 @@ def stage5():
     return done
 
 
+# ------------------------------------------------------------------ stage 4, part 2: SignatureHeader
+C06_STAGE4B = """
+(* ---- third wave (stage 4, part 2): SignatureHeader._read / retrieve as translated on this run (gen/ArchiveinfoSig.v, over the
+   generated helpers.calculate_crc32 with zlib.crc32 := Crc32.crc32_update), on the whole file image of at least 32 bytes
+   (the method seeks to offset 6 itself; read_fully(file, 26) = the next 26 bytes, compared with helpers.read_fully by
+   harness/prims.py): the fields are Trace.v's sig_ofs / sig_size / sig_hcrc, Bad7zFile exactly when the start header CRC
+   does not match (the second conjunct of Trace.sig_ok; the first, the magic, is _check_7zfile's). ---- *)
+Theorem C06_gen_SignatureHeader_retrieve_is_sig_fields : forall (img : bytes) fuel, (8 <= fuel)%nat -> (32 <= length img)%nat ->
+  ArchiveinfoSig.SignatureHeader_retrieve SigGen.zcrc img fuel
+  = if Crc32.crc32 (Trace.slice img 12 20) =? le_value (Trace.slice img 8 4)
+    then Ok (ArchiveinfoSig.mkSignatureHeader ([nth 6 img 0], [nth 7 img 0]) (le_value (Trace.slice img 8 4))
+               (Trace.sig_ofs img) (Trace.sig_size img) (Trace.sig_hcrc img), [])
+    else Err EBad7z.
+Proof. exact SigGen.gen_sig_retrieve. Qed.
+Print Assumptions C06_gen_SignatureHeader_retrieve_is_sig_fields.
+"""
+
+C07_STAGE4B = """
+(* ---- third wave (stage 4, part 2): SignatureHeader.calccrc / write / _write_skeleton as translated on this run.  write and
+   _write_skeleton start with file.seek(0, 0): the bytes below are what the file holds from offset 0.  A new archive
+   (SignatureHeader(): version 0.4) with nextheaderofs set, then calccrc(size, crc), then write gives Enc.sig_header (the layout
+   theorem of C20) = magic, version, Trace.sig_fields (Trace.start_crc ..) (the final writes of C09's sessions); the skeleton is
+   Trace.skeleton32.  Side conditions exactly: the asserts of write (all four), 20 <= fuel for the CRC loop. ---- *)
+Theorem C07_gen_SignatureHeader_calccrc_write_is_sig_header : forall ofs size hcrc fuel,
+  (20 <= fuel)%nat -> 0 <= ofs -> 0 < size -> 0 <= hcrc ->
+  (do o <- ArchiveinfoSig.SignatureHeader_calccrc SigGen.zcrc (SigGen.sig_new ofs) fuel size hcrc; ArchiveinfoSig.SignatureHeader_write o)
+  = Enc.sig_header ofs size hcrc.
+Proof. exact SigGen.gen_sig_calccrc_write. Qed.
+Print Assumptions C07_gen_SignatureHeader_calccrc_write_is_sig_header.
+
+Theorem C07_gen_SignatureHeader_calccrc_write_is_trace : forall ofs size hcrc fuel, (20 <= fuel)%nat ->
+  0 <= ofs < 2 ^ 64 -> 0 < size < 2 ^ 64 -> 0 <= hcrc < 2 ^ 32 ->
+  (do o <- ArchiveinfoSig.SignatureHeader_calccrc SigGen.zcrc (SigGen.sig_new ofs) fuel size hcrc; ArchiveinfoSig.SignatureHeader_write o)
+  = Ok (MAGIC ++ [0; 4] ++ Trace.sig_fields (Trace.start_crc ofs size hcrc) ofs size hcrc).
+Proof. exact SigGen.gen_sig_calccrc_write_trace. Qed.
+Print Assumptions C07_gen_SignatureHeader_calccrc_write_is_trace.
+
+Theorem C07_gen_SignatureHeader_write_skeleton_is_skeleton32 :
+  ArchiveinfoSig.SignatureHeader_write_skeleton ArchiveinfoSig.SignatureHeader_init = Ok Trace.skeleton32.
+Proof. exact (SigGen.gen_sig_write_skeleton ArchiveinfoSig.SignatureHeader_init eq_refl eq_refl). Qed.
+Print Assumptions C07_gen_SignatureHeader_write_skeleton_is_skeleton32.
+"""
+
+READ_DEPS_4B = ["calculate_crc32", "SignatureHeader.__init__", "SignatureHeader._read", "SignatureHeader.retrieve"]
+WRITE_DEPS_4B = ["calculate_crc32", "SignatureHeader.__init__", "SignatureHeader.calccrc", "SignatureHeader.write", "SignatureHeader._write_skeleton"]
+
+
+def stage4b():
+    done = []
+    add_require("coq/props/C06.v", "From P7 Require FilesGen.\n", "From P7 Require Crc32 Trace SigGen.\nFrom P7gen Require ArchiveinfoSig.\n")
+    add_require("coq/props/C07.v", "From P7 Require FilesGen.\n", "From P7 Require Crc32 Trace Enc SigGen.\nFrom P7gen Require ArchiveinfoSig.\n")
+    if patch("coq/props/C06.v", "C06_gen_SignatureHeader_retrieve_is_sig_fields", [], C06_STAGE4B):
+        done.append("props/C06.v")
+    if patch("coq/props/C07.v", "C07_gen_SignatureHeader_calccrc_write_is_sig_header", [], C07_STAGE4B):
+        done.append("props/C07.v")
+    if add_gen_deps("tools/harness/c06.py", READ_DEPS_4B):
+        done.append("tools/harness/c06.py")
+    if add_gen_deps("tools/harness/c07.py", WRITE_DEPS_4B):
+        done.append("tools/harness/c07.py")
+    return done
+
+
 if __name__ == "__main__":
     print("stage 1:", stage1())
     print("stage 2:", stage2())
     print("stage 3:", stage3())
     print("stage 4:", stage4())
     print("stage 5:", stage5())
+    print("stage 4b:", stage4b())
